@@ -155,7 +155,8 @@ namespace
             bool big = r.chance(1, 25); // a wide line: columns beyond 255
             if (big) cap = (int)r.range(258, 340);
             // prompt variant and echo switch (echo off: only the executed lines and the bounds can be checked)
-            p.cfg = {cap, H, r.chance(2, 3) ? 0 : (int64_t)r.range(1, 3), r.chance(1, 8) ? 0 : 1};
+            // cfg[4]: bit 0 no signal callback registered (1 run in 6); bits 1..2 what the caller-supplied storage held before init
+            p.cfg = {cap, H, r.chance(2, 3) ? 0 : (int64_t)r.range(1, 3), r.chance(1, 8) ? 0 : 1, (int64_t)((r.chance(1, 6) ? 1 : 0) | (r.below(4) << 1))};
             int n = (int)r.range(4, tier == THOROUGH ? 200 : 120);
             int style = (int)r.below(3); // 0 mixed, 1 edit-heavy, 2 history-heavy
             for (int i = 0; i < n; i++)
@@ -204,7 +205,11 @@ namespace
             bool echo = mod(p.c(3, 1), 2) != 0;
             if (!echo) probe("echo_off");
             if (PROMPT != "$ ") probe("other_prompt");
-            term->start((unsigned)cap, (unsigned)H, &sink, PROMPTS[mod(p.c(2), 4)], echo);
+            const unsigned flags = (unsigned)mod(p.c(4, 0), 8);
+            const bool no_sig = (flags & 1) != 0;
+            if (no_sig) probe("no_signal_callback");
+            if (flags >> 1) probe("dirty_storage_before_init");
+            term->start((unsigned)cap, (unsigned)H, &sink, PROMPTS[mod(p.c(2), 4)], echo, flags);
             int last_byte = -1;          // last byte delivered (for the CR-LF / LF-CR pairing rule)
             bool last_nl_fired = false;  // that byte was a line-end byte that produced a line end
             size_t n_exec_expected = 0;
@@ -287,6 +292,9 @@ namespace
                 {
                     // session restart on the same terminal object with another geometry: everything starts from scratch
                     // (empty line, empty history, fresh screen)
+                    // the session may be torn down in the middle of an escape sequence: the new session starts from the idle state
+                    if (mod(arg(o, 2), 4) == 1) { term->feed(0x1B); probe("reinit_inside_escape"); }
+                    else if (mod(arg(o, 2), 4) == 2) { term->feed(0x1B); term->feed(0x5B); probe("reinit_inside_escape"); }
                     size_t H0 = H;
                     cap = (size_t)(2 + mod(arg(o, 1), 23));
                     H = (size_t)(1 + mod(arg(o, 2), 9));
@@ -299,7 +307,7 @@ namespace
                     bool strict = sink.scr.strict;
                     sink.scr = Screen();
                     sink.scr.strict = strict;
-                    term->start((unsigned)cap, (unsigned)H, &sink, PROMPTS[mod(p.c(2), 4)], echo);
+                    term->start((unsigned)cap, (unsigned)H, &sink, PROMPTS[mod(p.c(2), 4)], echo, flags);
                     last_byte = -1;
                     last_nl_fired = false;
                     exec_base = sink.executed.size();
@@ -393,7 +401,7 @@ namespace
                     if (last_nl_fired) { keys--; continue; }
                     feed(0x03);
                     ref.interrupt();
-                    sig_expected++;
+                    if (!no_sig) sig_expected++;
                     fault("interrupt");
                     last_nl_fired = false;
                     break;
